@@ -51,23 +51,32 @@ CRATE_FINDERS = {
     "runexec": ("src/app/run.rs", "units/runexec/finder_test.rs"),
     "file": ("src/core/file.rs", "units/file/finder_test.rs"),
 }
+# further finders of a unit (integration tests driving the binary)
+EXTRA_FINDERS = {"log": [("tests/", "units/log/finder_show_test.rs")]}
 CACHE = os.path.join(U.VERIF, ".cache")
 
 
-def run_crate_finder(unit_name, scratch, only=None):
+def run_crate_finder(unit_name, scratch, only=None, spec=None):
+    spec = spec or CRATE_FINDERS[unit_name]
     """append the unit's finder module to a scratch copy of /repo and run it with `cargo test` (real compiled code)"""
     import shutil
-    host, test = CRATE_FINDERS[unit_name]
+    host, test = spec
     dst = os.path.join(scratch, "crate_" + unit_name)
     if os.path.exists(dst):
         shutil.rmtree(dst)
     subprocess.run(["rsync", "-a", "--exclude", "target", "--exclude", ".git", U.REPO + "/", dst + "/"], check=True)
     tpath = os.path.join(U.VERIF, test)
-    with open(os.path.join(dst, host), "a", encoding="utf-8") as fh:
-        fh.write('\n#[cfg(test)]\n#[path = "%s"]\nmod verif_finder;\n' % tpath)
     env = dict(os.environ, CARGO_TARGET_DIR=os.path.join(CACHE, "target-finder"), CARGO_NET_OFFLINE="true")
     os.makedirs(CACHE, exist_ok=True)
-    cmd = ["cargo", "test", "--offline", "--lib", "verif_finder::" + (only or "vf_"), "--", "--nocapture", "--test-threads", "1"]
+    if host == "tests/":
+        # an integration test that drives the real binary
+        os.makedirs(os.path.join(dst, "tests"), exist_ok=True)
+        shutil.copy(tpath, os.path.join(dst, "tests", "verif_finder_%s.rs" % unit_name))
+        cmd = ["cargo", "test", "--offline", "--test", "verif_finder_%s" % unit_name, "--", "--nocapture", "--test-threads", "1"]
+    else:
+        with open(os.path.join(dst, host), "a", encoding="utf-8") as fh:
+            fh.write('\n#[cfg(test)]\n#[path = "%s"]\nmod verif_finder;\n' % tpath)
+        cmd = ["cargo", "test", "--offline", "--lib", "verif_finder::" + (only or "vf_"), "--", "--nocapture", "--test-threads", "1"]
     r = subprocess.run(cmd, cwd=dst, env=env, capture_output=True, text=True, timeout=1800)
     fails = re.findall(r"VF-FAIL (.*?) :: (.*)$", r.stdout, re.M)
     sums = re.findall(r"VF-SUMMARY test=(\S+) checked=(\d+) nontrivial=(\d+) bad=(\d+)", r.stdout, re.M)
@@ -82,6 +91,13 @@ def run_crate_finder(unit_name, scratch, only=None):
 def crate_finder(unit_name):
     def f(scratch, failure):
         res = run_crate_finder(unit_name, scratch)
+        for extra in EXTRA_FINDERS.get(unit_name, []):
+            r2 = run_crate_finder(unit_name, scratch, spec=extra)
+            res["summaries"] += r2["summaries"]
+            res["failures"] += r2["failures"]
+            res["panicked_tests"] += r2["panicked_tests"]
+            res["built"] = res["built"] and r2["built"]
+            res["build_error"] = res["build_error"] or r2["build_error"]
         out = {"finder": "%s appended to a scratch copy of the crate as a child module of %s; `cargo test`; real compiled functions against the executable contract (bounded enumeration)" % (CRATE_FINDERS[unit_name][1], CRATE_FINDERS[unit_name][0]), "result": res}
         if res["failures"]:
             c = res["failures"][0]
